@@ -92,6 +92,8 @@ def judge(case, obs):
 
 
 def run_case(case):
+    if "twin" in case:
+        return run_twin(case)
     if case["driver"] in ("daliserver", "atx"):
         return run_sync(case)
     obs = sc.run(case)
@@ -306,6 +308,85 @@ def async_case(draw, driver=None):
     return case
 
 
+# ------------------------------------------------- two driver objects in one program ----
+def run_twin(case):
+    """case: {"twin": kind, "seq0": [a, b], "sides": {"A": [cmd specs], "B": [...]}, "t0": {"A": t, "B": t}, "lat": [[..], [..]]}
+    Two driver objects of one class, each on its own gateway, used at the same time: every caller gets the
+    answer of ITS gateway to ITS command."""
+    import asyncio
+    from harness.twin import TwinHidSim
+    sim = TwinHidSim(case["twin"], seq0=tuple(case["seq0"]), latencies=tuple(case.get("lat", [[], []])))
+    out = []
+    try:
+        if not sim.connect():
+            return [("C16:%s:twin:connect-failed" % case["twin"], "two drivers did not both connect")]
+        results = {"A": [], "B": []}
+        cmds = {}
+        for k in "AB":
+            cmds[k] = []
+            for c in case["sides"][k]:
+                cmd = sc.build_cmd(c)
+                cmds[k].append(cmd)
+                if "oc" in c:
+                    sim.sides[k].expect(cmd, tuple(c["oc"]))
+                else:
+                    sim.sides[k].expect(cmd, ("silent",))
+
+        async def caller(k):
+            await asyncio.sleep(case["t0"][k])
+            for cmd in cmds[k]:
+                r = await sim.drivers[k].send(cmd)
+                results[k].append(sc.describe_response(r))
+        tasks = {k: sim.start(caller(k)) for k in "AB"}
+        sim.drain()
+        for k in "AB":
+            t = tasks[k]
+            where = "%s driver %s of two (sequence numbers start at %r)" % (case["twin"], k, case["seq0"])
+            if not t.done():
+                out.append(("C16:%s:twin:caller-hangs" % case["twin"], "%s: still pending" % where))
+                continue
+            if t.exception() is not None:
+                e = t.exception()
+                out.append(("C16:%s:twin:send-raised:%s" % (case["twin"], type(e).__name__), "%s: %r (in %s)"
+                            % (where, e, library_frame(e.__traceback__))))
+                continue
+            for c, cmd, got in zip(case["sides"][k], cmds[k], results[k]):
+                oc = tuple(c.get("oc", ("silent",)))
+                if cmd.response is None:
+                    if got["type"] is not None:
+                        out.append(("C16:%s:twin:answer-for-non-query" % case["twin"], "%s: %s returned %r" % (where, c, got)))
+                    continue
+                exp = ["none"] if oc[0] == "silent" else ["value", oc[1]]
+                if got["type"] is None or got["raw"][:len(exp)] != exp:
+                    out.append(("C16:%s:twin:answer-of-the-other-gateway-or-lost" % case["twin"],
+                                "%s: command %s returned %r, its own gateway answered %r" % (where, c, got, exp)))
+        if sim.loop.exceptions:
+            out.append(("C16:%s:twin:unhandled-exception" % case["twin"], repr(sim.loop.exceptions[:2])[:300]))
+    finally:
+        sim.close()
+    return out
+
+
+@st.composite
+def twin_case(draw):
+    kind = draw(st.sampled_from(["tridonic", "tridonic", "hasseb"]))
+    s0 = draw(st.sampled_from([1, 77, 254, 255]))
+    seq0 = [s0, s0 if draw(st.booleans()) else draw(st.sampled_from([1, 2, 78, 255]))]
+    sides = {}
+    for i, k in enumerate("AB"):
+        cl = []
+        for j in range(draw(st.integers(1, 3))):
+            kk = draw(st.sampled_from(["qlevel", "qstatus", "dapc", "reset", "qpresent", "dtquery"]))
+            c = {"k": kk, "a": 3 + j}            # the SAME commands on both lines: only the answers differ
+            if sc.build_cmd(c).response is not None:
+                c["oc"] = ["value", (0x11 if k == "A" else 0x22) + j] if draw(st.integers(0, 3)) else ["silent"]
+            cl.append(c)
+        sides[k] = cl
+    return {"twin": kind, "seq0": seq0, "sides": sides,
+            "t0": {"A": draw(st.sampled_from([0.0, 0.001, 0.01, 0.03])), "B": draw(st.sampled_from([0.0, 0.002, 0.02, 0.05]))},
+            "lat": [draw(st.lists(st.floats(0, 0.999), max_size=8)), draw(st.lists(st.floats(0, 0.999), max_size=8))]}
+
+
 @st.composite
 def sync_case(draw):
     drv = draw(st.sampled_from(["daliserver", "atx"]))
@@ -370,6 +451,11 @@ def nontrivial(case):
 def _shard(arg):
     kind, driver, seed, n = arg
     res = Result()
+    if kind == "twin":
+        hyp.search(twin_case(), run_case, res, n, seed, ID, nontrivial=lambda c: True,
+                   classify=lambda c: ["twin:" + c["twin"], "twin:same-sequence-numbers" if c["seq0"][0] == c["seq0"][1]
+                                       else "twin:different-sequence-numbers"])
+        return res
     strat = sync_case() if kind == "sync" else async_case(driver)
     hyp.search(strat, run_case, res, n, seed, ID, nontrivial=nontrivial, classify=features)
     return res
@@ -382,4 +468,6 @@ def run(ctx):
         drv = ASYNC[k % 4]
         shards.append(("async", drv, ctx.seed * 1000 + k, n // 4))
     shards.append(("sync", None, ctx.seed * 1000 + 99, n))
+    shards.append(("twin", None, ctx.seed * 1000 + 98, max(60, n // 6)))
+    shards.append(("twin", None, ctx.seed * 1000 + 97, max(60, n // 6)))
     ctx.pmap(_shard, shards)
